@@ -74,6 +74,13 @@ func pkgOfKey(key string) string {
 }
 
 func (g *Gen) callCommon(in *ssa.Call, common *ssa.CallCommon, args []*SV, st *State, reach string, pos token.Pos) {
+	if in != nil {
+		preHeaps := make(map[string]string, len(st.heaps))
+		for k, v := range st.heaps {
+			preHeaps[k] = v
+		}
+		defer g.keepPrivate(preHeaps, st, in)
+	}
 	if b, ok := common.Value.(*ssa.Builtin); ok && !common.IsInvoke() {
 		g.builtin(in, b, common, args, st, reach, pos)
 		return
@@ -124,7 +131,11 @@ func (g *Gen) callCommon(in *ssa.Call, common *ssa.CallCommon, args []*SV, st *S
 		desc = "dynamic call"
 	}
 	if !g.pa {
-		g.fail(pos, "call to %s has no contract and is not a modelled intrinsic (P-level)", desc)
+		// P level: a side-effect-free external function may be called; its result is unknown
+		// (a function that depends on it can then only be proved where the result does not matter)
+		if !(key != "" && !inRepo(key) && (pureExternalPkgs[pkgOfKey(key)] || pureExternalFuncs[key])) {
+			g.fail(pos, "call to %s has no contract and is not a modelled intrinsic (P-level)", desc)
+		}
 	}
 	g.unmodelled["call "+desc] = true
 	g.nHavoc++
@@ -390,6 +401,11 @@ func (g *Gen) contractCall(in *ssa.Call, con *Contract, callee *ssa.Function, co
 	envPost := &Env{c: g.Ctx, vars: postVars, st: st, old: pre, pkg: cpkg, oldVars: vars}
 	for _, cl := range con.Ensures {
 		if !clauseActive(cl, g.fmode) {
+			continue
+		}
+		// a postcondition that mentions locals of the callee is internal to the callee's proof:
+		// callers cannot state it and do not get it
+		if _, err := g.evalClause(cl, envPost); err != nil && strings.Contains(err.Error(), "unknown identifier") {
 			continue
 		}
 		g.assumeClause(cl, envPost, reach)
